@@ -67,6 +67,18 @@ Theorem C07_separation_weak : forall c h, fix16 c = true -> fix18 c = true ->
   weakly_separated (fst (run c h start)).
 Proof. exact weak_separation_holds. Qed.
 
+(* the two per-step observables the correspondence run compares with the implementation (Corr/C07.v: may_change =
+   "values this call may have changed", sharing = "pairs of roots with a common mutable cell") are provably clean for
+   EVERY history: an implementation run showing a changed value, or (D17 repaired) two values sharing a mutable object,
+   can never agree with the model *)
+Theorem C07_predicts_no_change : forall c h p, writes_fixed c = true ->
+  may_change (fst (run c h start)) (snd (step c (fst (run c h start)) p)) = [].
+Proof. exact no_change_predicted. Qed.
+
+Theorem C07_predicts_no_value_sharing : forall c h, sep_fixed c = true ->
+  existsb (fun p => protected (fst p) && protected (snd p)) (sharing (fst (run c h start))) = false.
+Proof. exact no_value_sharing_predicted. Qed.
+
 (* interleave (abstract): if every thread writes only cells private to it and reads no cell private to another
    thread, then in ANY interleaving each thread observes exactly what it observes running alone (from any store
    that agrees with the shared one on what the thread may look at) *)
@@ -124,6 +136,8 @@ Print Assumptions C07_repeat.
 Print Assumptions C07_frame_nonvacuous.
 Print Assumptions C07_separation_partial.
 Print Assumptions C07_separation_weak.
+Print Assumptions C07_predicts_no_change.
+Print Assumptions C07_predicts_no_value_sharing.
 Print Assumptions C07_interleave.
 Print Assumptions C07_interleave_example.
 Print Assumptions C07_shared_log_discipline.
